@@ -139,12 +139,13 @@ type Sim struct {
 	mainDone  bool
 	aborted   bool
 
-	Steps    int
-	Yields   int64
-	Preempts int
-	MaxReady int
-	Stalled  bool
-	OverStep bool
+	Steps     int
+	Yields    int64
+	tokYields int64
+	Preempts  int
+	MaxReady  int
+	Stalled   bool
+	OverStep  bool
 
 	hash       uint64 // event-log hash (every decision, every world event)
 	schedHash  uint64 // schedule fingerprint: decisions only
@@ -217,6 +218,10 @@ func (s *Sim) yield(force bool) {
 	}
 	s.Yields++
 	if g == s.current && !force {
+		// decisions may only depend on the token holder's own yields: goroutines that
+		// were just woken run their lock-free prefix concurrently and reach their first
+		// yield at a moment the simulator does not control
+		s.tokYields++
 		if !s.preemptLocked(g) {
 			s.mu.Unlock()
 			return
@@ -243,8 +248,8 @@ func (s *Sim) preemptLocked(g int64) bool {
 		return true
 	case StratPrio:
 		// the token holder keeps running unless this yield is a change point
-		if s.changeAt[int(s.Yields)] {
-			s.prio[g] = -int(s.Yields) // lowest so far
+		if s.changeAt[int(s.tokYields)] {
+			s.prio[g] = -int(s.tokYields) // lowest so far
 			return true
 		}
 		return false
